@@ -12,6 +12,7 @@
 package main
 
 import (
+	"encoding/hex"
 	"fmt"
 	"math/rand"
 	"os"
@@ -86,6 +87,12 @@ func newGroup(n, abn int) *group {
 		members = append(members, m)
 	}
 	g.real = newArbiters(members)
+	// every arbiter's node key is the node key of a registered producer, and so is foreign
+	// signer 0 (a registered producer that is not in the current arbiter set); foreign
+	// signer -1 is unknown to the node
+	for i := 0; i <= n; i++ {
+		g.real.State.NodeOwnerKeys[hex.EncodeToString(g.keys[i].pub)] = hex.EncodeToString(detKey(fmt.Sprintf("owner-n%d", n), i).pub)
+	}
 	g.mock = state.NewArbitratorsMock(members, 0, g.real.GetArbitersMajorityCount())
 	return g
 }
